@@ -12,6 +12,8 @@ VERIF = os.path.dirname(os.path.dirname(os.path.abspath(__file__)))
 HARNESS = os.path.join(VERIF, "harness")
 BUILD = os.path.join(VERIF, "build")
 NPROC = int(os.environ.get("VERIF_JOBS", "16"))
+EVIDENCE_DIR = os.path.join(VERIF, "evidence")
+REPLAY_DIR = os.path.join(VERIF, "replays")
 
 sys.path.insert(0, os.path.join(VERIF, "tools"))
 import plans  # noqa: E402
@@ -138,7 +140,14 @@ def main():
     if replay:
         rp = json.load(open(replay))
         plan = plans.replay_plan(prop, rp)
-    outdir = os.path.join(BUILD, "out", f"{prop}_{tier}")
+    # internal: mutation sweeps run several orchestrators at once; VERIF_SCRATCH gives each its own output,
+    # evidence and replay directories (the registered commands never set it)
+    scratch = os.environ.get("VERIF_SCRATCH")
+    global EVIDENCE_DIR, REPLAY_DIR
+    if scratch:
+        EVIDENCE_DIR = os.path.join(scratch, "evidence")
+        REPLAY_DIR = os.path.join(scratch, "replays")
+    outdir = os.path.join(scratch or BUILD, "out", f"{prop}_{tier}")
     shutil.rmtree(outdir, ignore_errors=True)
     os.makedirs(outdir, exist_ok=True)
 
@@ -230,7 +239,7 @@ def main():
     rc = 0
     replay_paths = []
     if violations:
-        rdir = os.path.join(VERIF, "replays", prop)
+        rdir = os.path.join(REPLAY_DIR, prop)
         os.makedirs(rdir, exist_ok=True)
         for i, (desc, detail) in enumerate(violations[:5]):
             h = hashlib.sha1(json.dumps(detail, sort_keys=True, default=str).encode()).hexdigest()[:10]
@@ -283,7 +292,7 @@ def dedupe_races(txt):
 
 
 def write_evidence(prop, tier, seed, plan, merged, violations, wall, inconclusive=None, known=None):
-    os.makedirs(os.path.join(VERIF, "evidence"), exist_ok=True)
+    os.makedirs(EVIDENCE_DIR, exist_ok=True)
     cov = {}
     if merged is not None:
         nontrivial = sum(1 for v in merged["hashes"].values() if v)
@@ -312,7 +321,7 @@ def write_evidence(prop, tier, seed, plan, merged, violations, wall, inconclusiv
         cov["known_findings"] = known
     ev = dict(property_id=prop, tier=tier, seed=seed, level="exploration", coverage=cov,
               assumptions=plan.get("assumptions", []), wall_s=round(wall, 2), violations=len(violations))
-    json.dump(ev, open(os.path.join(VERIF, "evidence", f"{prop}.json"), "w"), indent=1, default=str)
+    json.dump(ev, open(os.path.join(EVIDENCE_DIR, f"{prop}.json"), "w"), indent=1, default=str)
 
 
 if __name__ == "__main__":
